@@ -118,6 +118,10 @@ def build_asset(a, nodes, tz=None):
             kw["nodes"] = nn
     if a.get("orders_df"):
         kw["orders"] = pd.DataFrame(kw["orders"])
+    if a.get("_profile_arrays"):   # start / shutdown ramp profiles handed over as float arrays
+        for k in list(kw):
+            if k.endswith("_ramp_lower_bounds") or k.endswith("_ramp_upper_bounds"):
+                kw[k] = np.array(kw[k], dtype=float)
     return cls(**kw)
 
 
